@@ -1013,6 +1013,14 @@ pub fn mtu_wire(scn: &Scenario, l: &RunLog, fault_free: bool) -> Vec<Finding> {
     let path = scn.blackhole_above.or(scn.emsgsize_above).map(|d| d - 20).unwrap_or(usize::MAX);
     let want = ceiling.min(path);
     let floor = (if scn.ipv6 { 1280usize } else { 576 }).min(scn.a.link_mtu) - ip - 20;
+    if want >= floor && fault_free && !l.apps_finished {
+        v.push(f(
+            "C14",
+            "convergence",
+            "mtu/transfer-does-not-complete-on-probing-path",
+            format!("loss-free run over a path with link ceiling {} and size limit {:?}: the transfer did not complete before the watchdog ({})", ceiling, scn.blackhole_above.or(scn.emsgsize_above), l.stuck.join("; ")),
+        ));
+    }
     if want >= floor && fault_free && l.apps_finished {
         // first transmissions of A in order
         let mut seen = std::collections::BTreeSet::new();
